@@ -150,7 +150,7 @@ class C16(Check):
     design_ref = 'DESIGN.md 3.10'
     runs = {'quick': 5000, 'thorough': 120000}
     shrink_lists = (('ops',),)
-    hashseeds = {'quick': ['1:O'], 'thorough': ['1:O', 2]}
+    hashseeds = {'quick': ['1:OA'], 'thorough': ['1:OA', 2]}
     rule = ('seeded histories of 1-3 simulated clients against one SignedCookieMiddleware server: set/del/read/clear '
             'with JSON values, clock advances to just before/at/after the announced expiry, backward jumps, jitter '
             'inside a request, 18 tamper kinds, replay of older tokens, cross-client presentation; oracle = registry '
